@@ -516,3 +516,77 @@ func ResultOf(ret *ssa.Return, i int) ssa.Value {
 	}
 	return v
 }
+
+// GuardedPS is Guarded with path sensitivity for branch conditions that are
+// tested more than once in the function: a path that takes the same SSA
+// condition value once as true and once as false is infeasible and ignored.
+func GuardedPS(site ssa.Instruction, guard EdgeFilter) bool {
+	fn := site.Parent()
+	if len(fn.Blocks) == 0 {
+		return false
+	}
+	count := map[ssa.Value]int{}
+	for _, b := range fn.Blocks {
+		if i := BlockIf(b); i != nil {
+			v, _ := Truth(i.Cond, 0)
+			count[v]++
+		}
+	}
+	var multi []ssa.Value
+	idx := map[ssa.Value]int{}
+	for _, b := range fn.Blocks { // deterministic order
+		if i := BlockIf(b); i != nil {
+			v, _ := Truth(i.Cond, 0)
+			if count[v] >= 2 {
+				if _, ok := idx[v]; !ok && len(multi) < 14 {
+					idx[v] = len(multi)
+					multi = append(multi, v)
+				}
+			}
+		}
+	}
+	type state struct {
+		b    *ssa.BasicBlock
+		asg  uint32 // 2 bits per multi cond: 0 unknown, 1 true, 2 false
+	}
+	target := site.Block()
+	start := state{fn.Blocks[0], 0}
+	if start.b == target {
+		return false
+	}
+	seen := map[state]bool{start: true}
+	work := []state{start}
+	for len(work) > 0 {
+		s := work[len(work)-1]
+		work = work[:len(work)-1]
+		for i, succ := range s.b.Succs {
+			if guard != nil && guard(s.b, i) {
+				continue
+			}
+			na := s.asg
+			if iff := BlockIf(s.b); iff != nil {
+				v, truth := Truth(iff.Cond, i)
+				if k, ok := idx[v]; ok {
+					cur := (na >> (2 * uint(k))) & 3
+					want := uint32(2)
+					if truth {
+						want = 1
+					}
+					if cur != 0 && cur != want {
+						continue // infeasible
+					}
+					na |= want << (2 * uint(k))
+				}
+			}
+			if succ == target {
+				return false
+			}
+			ns := state{succ, na}
+			if !seen[ns] {
+				seen[ns] = true
+				work = append(work, ns)
+			}
+		}
+	}
+	return true
+}
